@@ -153,6 +153,11 @@ type _refHolder struct {
 	destinations []reflect.Value
 
 	value reflect.Value
+
+	// value converted to the declared slice types of its destinations: all destinations of one
+	// type share one converted list (as they shared the list on the sender's side), instead of
+	// each back-reference paying for, and keeping, a copy of its own
+	converted map[reflect.Type]reflect.Value
 }
 
 var _refHolderType = reflect.TypeOf(_refHolder{})
@@ -163,11 +168,37 @@ func (h *_refHolder) change(v reflect.Value) {
 		return
 	}
 	h.value = v
+	h.converted = nil
+}
+
+// convertedTo returns the list as a slice of type destTyp
+func (h *_refHolder) convertedTo(destTyp reflect.Type) (reflect.Value, error) {
+	if cv, ok := h.converted[destTyp]; ok {
+		return cv, nil
+	}
+	cv, err := ConvertSliceValueType(destTyp, h.value)
+	if err != nil || !cv.IsValid() {
+		return cv, err
+	}
+	if h.converted == nil {
+		h.converted = make(map[reflect.Type]reflect.Value)
+	}
+	h.converted[destTyp] = cv
+	return cv, nil
 }
 
 // notice all destinations ref to the value
 func (h *_refHolder) notify() {
+	// the list has its final content now: what was converted while it was still being read is stale
+	h.converted = nil
 	for _, dest := range h.destinations {
+		if t := UnpackPtrType(dest.Type()); t.Kind() == reflect.Slice && h.value.IsValid() &&
+			h.value.Kind() == reflect.Slice && t != h.value.Type() {
+			if cv, err := h.convertedTo(t); err == nil && cv.IsValid() {
+				SetValue(dest, cv)
+				continue
+			}
+		}
 		SetValue(dest, h.value)
 	}
 }
